@@ -893,6 +893,9 @@ func (e *Env) call(x *ECall) TV {
 	case x.Fn == "asint":
 		Declare("uf:unbox_Int", "(declare-fun unbox_Int (Any) Int)")
 		return TV{T: sx.App("unbox_Int", e.Tr(x.Args[0]).T), Ty: I}
+	case x.Fn == "asbool":
+		Declare("uf:unbox_Bool", "(declare-fun unbox_Bool (Any) Bool)")
+		return TV{T: sx.App("unbox_Bool", e.Tr(x.Args[0]).T), Ty: B}
 	case x.Fn == "asbytes":
 		// the VM item behind an `any` parameter read as a (nullable) byte string, as a Go type assertion does
 		Declare("uf:unbox_NB", "(declare-fun unbox_NB (Any) NB)")
